@@ -274,7 +274,7 @@ static Fate run_child(const Scenario *sc, const Case &c, long fail_at) {
 }
 
 static bool sanitizer_text(const std::string &e) {
-  return e.find("AddressSanitizer") != std::string::npos || e.find("runtime error:") != std::string::npos ||
+  return e.find("ERROR: AddressSanitizer") != std::string::npos || e.find("runtime error:") != std::string::npos ||
          e.find("UndefinedBehaviorSanitizer") != std::string::npos || e.find("LeakSanitizer") != std::string::npos;
 }
 
